@@ -335,10 +335,14 @@ class RefSession(object):
       if not s['remote']:
         s['remote'] = a0
         s['state'] = 'open'
+      else:
+        # an OKAY for a stream that is already open and has no write pending (the model has no writes): illegal here
+        return 'protocol'
     elif cmd == 'CLSE':
       s['state'] = 'closed'
     else:
       s['buffer'] += data
+    return None
 
   def op_open(self, local, wire):
     sid = self.next_sid
@@ -363,7 +367,8 @@ class RefSession(object):
       r = self.next_message(sid, wire)
       if r[0] != 'msg':
         return r
-      self.handle(sid, r[1])
+      if self.handle(sid, r[1]) == 'protocol':
+        return ('protocol',)
     if length:
       data, s['buffer'] = s['buffer'][:length], s['buffer'][length:]
     else:
